@@ -450,4 +450,160 @@ Verdicts(S, r) ==
          Len(S.verts) <= r.gpmax /\ structurallyValid /\ PertSet(S) = {}
          /\ GeneralPosition(S) /\ K(S) = DelaunayCells(S) /\ EmbeddedQ(S)
            => r.is_valid /\ r.via_flips /\ r.brute = 0)
+
+---------------------------------------------------------------------------
+\* ---- C10 : point location ---------------------------------------------------
+\* side of q relative to boundary facet f, normalised so that +1 is the inner side
+InnerSide(S, f, q) ==
+  LET c  == CHOOSE c \in CellsWith(K(S), f) : TRUE
+      fs == Pts(Pos(S), SetToSeq(f))
+  IN  Side(fs, q) * Side(fs, Pos(S)[ApexOf(c, f)])
+
+StrictlyOutsideHull(S, q) == \E f \in Boundary(K(S)) : InnerSide(S, f, q) < 0
+StrictlyInsideHull(S, q)  == \A f \in Boundary(K(S)) : InnerSide(S, f, q) > 0
+
+\* rs = results of locate for one query point under several hints
+LocateOne(S, valid, item) ==
+  LET q == item.q
+      out == StrictlyOutsideHull(S, q)
+      \* the side of q relative to every hull hyperplane is exactly decidable: no zero
+      \* determinant that involves a perturbed (off-lattice) vertex
+      dec == \A f \in Boundary(K(S)) :
+               InnerSide(S, f, q) # 0 \/ ~(\E v \in (CHOOSE c \in CellsWith(K(S), f) : TRUE) : v \in PertSet(S))
+      Cls(k) == IF k = "Outside" THEN "Outside" ELSE IF k \in {"Inside", "OnFacet", "OnEdge"} THEN "In" ELSE k
+  IN
+  \A i \in DOMAIN item.rs :
+    LET r == item.rs[i] IN
+    /\ Chk("C19.panic in locate", r.kind # "Panic")
+    /\ Chk("C10.locate returns a typed result", r.kind \in {"Inside", "OnFacet", "OnEdge", "OnVertex", "Outside"})
+    /\ valid =>
+         /\ Chk("C10.returned cell contains the point",
+                r.kind \in {"Inside", "OnFacet", "OnEdge"} =>
+                   /\ r.cell \in CIds(S)
+                   /\ LET c == CRec(S, r.cell) IN
+                      HasPert(S, c.vs) \/ InClosedSimplex(Pts(Pos(S), c.vs), q))
+         /\ Chk("C10.Outside reported for a point of the hull", r.kind = "Outside" /\ dec => out)
+         /\ Chk("C10.strictly outside point not reported Outside", out /\ dec => r.kind = "Outside")
+         /\ Chk("C10.OnVertex only on a vertex", r.kind = "OnVertex" => \E v \in VRecs(S) : v.m = q)
+    /\ Chk("C10.answer class depends on the hint", valid /\ dec => Cls(r.kind) = Cls(item.rs[1].kind))
+    /\ Chk("C10.statistics variant differs", r.kind2 = r.kind /\ r.cell2 = r.cell)
+    /\ Chk("C19.walk steps within budget", r.steps <= 10001 /\ (~r.scan => r.steps <= Len(S.cells) + 1))
+
+Locate(S, r) ==
+  LET valid == Level1Q(S) /\ Level2Q(S) /\ Len(S.cells) > 0
+               /\ BallAt(K(S), NN(S), VIds(S), "PLManifoldStrict") /\ GeometricOrientationOK(S) /\ EmbeddedQ(S)
+  IN  \A i \in DOMAIN r.qs : LocateOne(S, valid, r.qs[i])
+
+\* ---- C11 : convex hull -------------------------------------------------------
+\* H = [facets (sequence of vertex-id sets, in the hull's own order), at (Obs at creation)]
+HullCreateOK(S, r) ==
+  LET F == {Range(r.facets[i]) : i \in DOMAIN r.facets} IN
+  /\ Chk("C11.hull facets are the facets incident to one cell", F = Boundary(K(S)))
+  /\ Chk("C11.hull facet count", r.n = Len(r.facets) /\ Cardinality(F) = Len(r.facets))
+  /\ Chk("C11.each hull facet names its cell",
+         \A i \in DOMAIN r.facets : r.cells[i] \in CIds(S) /\ Range(r.facets[i]) \subseteq CellSet(CRec(S, r.cells[i])))
+  /\ Chk("C11.closed surface", ClosedBoundary(K(S)))
+  /\ Chk("C11.every vertex on the inner side of every hull facet", EmbConvex(S))
+  /\ Chk("C11.fresh hull reports itself valid", r.valid_now /\ r.validate_now)
+
+HullQueryOne(S, H, changed, item) ==
+  LET q == item.q
+      n == Len(H.facets)
+      inner(i) == InnerSide(S, H.facets[i], q)
+      dec == PertSet(S) = {}
+  IN
+  /\ Chk("C19.panic in hull query", item.status # "Panic")
+  /\ Chk("C11.hull query answered after the triangulation changed", changed => item.status = "Stale")
+  /\ Chk("C11.some queries report staleness and others answer", item.status # "Mixed")
+  /\ (~changed /\ item.status = "Fresh" /\ dec =>
+        /\ Chk("C11.outside verdict", (\E i \in 1..n : inner(i) < 0) => item.outside)
+        /\ Chk("C11.inside verdict", (\A i \in 1..n : inner(i) > 0) => ~item.outside /\ Len(item.visible) = 0 /\ item.nearest = 0)
+        /\ Chk("C11.per-facet visibility",
+               \A i \in 1..n : inner(i) # 0 => item.per[i] = (inner(i) < 0))
+        /\ Chk("C11.visible facet list",
+               (\A i \in 1..n : inner(i) # 0) => Range(item.visible) = {i \in 1..n : inner(i) < 0})
+        /\ Chk("C11.nearest visible facet", item.nearest # 0 => item.nearest \in 1..n /\ inner(item.nearest) <= 0))
+
+HullQuery(S, H, r) ==
+  LET changed == ObsCells(S) # H.at.cells \/ ObsVerts(S) # H.at.verts IN
+  \A i \in DOMAIN r.qs : HullQueryOne(S, [facets |-> [j \in DOMAIN H.facets |-> Range(H.facets[j])], at |-> H.at],
+                                      changed, r.qs[i])
+
+\* ---- C15 : topology and adjacency queries ---------------------------------------
+SeqSet(xs) == {Range(xs[i]) : i \in DOMAIN xs}
+Queries(S, r) ==
+  LET KK == K(S)  n == NN(S)
+      valid == Len(S.cells) > 0 /\ Level1Q(S) /\ Level2Q(S) /\ BallAt(KK, n, VIds(S), "Pseudomanifold")
+  IN
+  /\ Chk("C19.panic in queries", "edges" \in DOMAIN r)
+  /\ Chk("C15.edges", SeqSet(r.edges) = Faces(KK, 2) /\ Len(r.edges) = Cardinality(Faces(KK, 2)))
+  /\ Chk("C15.number_of_edges", r.n_edges = Cardinality(Faces(KK, 2)))
+  /\ Chk("C15.adjacency index builds", Level2Q(S) => r.index_ok)
+  /\ Chk("C15.indexed edges", r.index_ok => r.edges_i = r.edges /\ r.n_edges_i = r.n_edges)
+  /\ Chk("C15.facets", r.facets_n = Len(S.cells) * n /\ r.facets_d = Cardinality(AllFacets(KK)))
+  /\ Chk("C15.boundary facets", SeqSet(r.bfacets) = Boundary(KK) /\ Len(r.bfacets) = Cardinality(Boundary(KK)))
+  /\ Chk("C15.cell neighbours",
+         /\ {x.c : x \in Range(r.nbrs)} = CIds(S) /\ Len(r.nbrs) = Len(S.cells)
+         /\ \A x \in Range(r.nbrs) :
+              LET c == CRec(S, x.c) IN
+              /\ Range(x.ns) = {d.id : d \in {d \in CRecs(S) : d.id # c.id /\ Adjacent(CellSet(d), CellSet(c))}}
+              /\ Len(x.ns) = Cardinality(Range(x.ns))
+              /\ x.ns_i = x.ns /\ x.n_i = Len(x.ns)
+              /\ x.cv = c.vs)
+  /\ Chk("C15.incident cells and edges",
+         /\ {x.v : x \in Range(r.adj)} = VIds(S) /\ Len(r.adj) = Len(S.verts)
+         /\ \A x \in Range(r.adj) :
+              /\ Range(x.cs) = {c.id : c \in {c \in CRecs(S) : x.v \in CellSet(c)}}
+              /\ Len(x.cs) = Cardinality(Range(x.cs))
+              /\ x.cs_i = x.cs /\ x.n_ac_i = Len(x.cs)
+              /\ SeqSet(x.ie) = {e \in Faces(KK, 2) : x.v \in e} /\ Len(x.ie) = Cardinality(SeqSet(x.ie))
+              /\ x.ie_i = x.ie /\ x.n_ie = Len(x.ie) /\ x.n_ie_i = Len(x.ie)
+              /\ x.coords_ok)
+  /\ Chk("C15.simplex counts",
+         /\ Len(r.fvec) = n
+         /\ r.fvec[1] = Len(S.verts)
+         /\ \A k \in 2..n : r.fvec[k] = Cardinality(Faces(KK, k)))
+  /\ Chk("C15.Euler characteristic",
+         r.chi = Euler(KK, n) + (Len(S.verts) - Cardinality(Verts(KK))))
+  /\ Chk("C15.classification",
+         valid => /\ r.class \in (IF Len(S.cells) = 1 THEN {"Ball", "SingleSimplex"} ELSE {"Ball"})
+                  /\ r.chi = 1)
+  /\ Chk("C15.boundary is a closed sphere",
+         valid /\ BallAt(KK, n, VIds(S), "PLManifoldStrict") => IsSphere(Boundary(KK), n - 1))
+  /\ Chk("C15.boundary simplex counts",
+         Len(S.cells) > 0 =>
+            /\ Len(r.bvec) >= n - 1
+            /\ \A k \in 1..(n - 1) : r.bvec[k] = Cardinality(Faces(Boundary(KK), k)))
+  /\ Chk("C15.missing vertex key",
+         r.miss_v.tested => r.miss_v.adj = 0 /\ r.miss_v.ie = 0 /\ r.miss_v.n_ie = 0 /\ ~r.miss_v.coords
+                            /\ r.miss_v.adj_i = 0 /\ r.miss_v.ie_i = 0)
+  /\ Chk("C15.missing cell key",
+         r.miss_c.tested => r.miss_c.ns = 0 /\ ~r.miss_c.cv /\ r.miss_c.ns_i = 0)
+
+\* ---- C13 : clone / serialisation round trip ---------------------------------------
+NbrRelation(S) == {<<c.id, c.nb[i]>> : c \in CRecs(S), i \in 1..(S.D + 1)} \ {<<c.id, 0>> : c \in CRecs(S)}
+CellIdentity(S) == {[id |-> c.id, vs |-> CellSet(c), data |-> c.data] : c \in CRecs(S)}
+RelationOf(S) == UNION {{<<c.id, c.nb[i]>> : i \in {j \in DOMAIN c.nb : c.nb[j] # 0}} : c \in CRecs(S)}
+
+CloneOK(src, r, post) ==
+  /\ Chk("Clone.same observable state", Obs(post) = Obs(src))
+  /\ Chk("Clone.compares equal", r.eq)
+
+SerDeOK(src, r, post) ==
+  /\ Chk("C13.same vertices (uuid, coordinate bits, data)", ObsVerts(post) = ObsVerts(src))
+  /\ Chk("C13.same cells (uuid, vertex set, data)", CellIdentity(post) = CellIdentity(src))
+  /\ Chk("C13.same neighbour relation", RelationOf(post) = RelationOf(src))
+  /\ Chk("C13.compares equal to the original", r.eq)
+  /\ Chk("C13.passes the same validation levels", r.same_verdicts)
+  /\ Chk("C13.structurally consistent after loading", Level1(post) /\ Level2(post))
+
+\* twin objects: same projection up to cell identity and slot order
+CompareOK(A, B) ==
+  \* a vertex the library had to perturb may be displaced by a different (documented, tiny)
+  \* amount in the twin: its home, uuid and data must agree, its bits need not
+  /\ Chk("TWIN.vertices differ",
+         {[id |-> r.id, m |-> r.m, data |-> r.data, h |-> IF r.pert THEN 0 ELSE r.h] : r \in VRecs(A)}
+       = {[id |-> r.id, m |-> r.m, data |-> r.data, h |-> IF r.pert THEN 0 ELSE r.h] : r \in VRecs(B)})
+  /\ Chk("TWIN.cells differ", K(A) = K(B))
+  /\ Chk("TWIN.policies differ", A.cfg = B.cfg)
 =============================================================================
